@@ -751,7 +751,7 @@ static inline void gm_exec(const GLine *L, const char *s, int n) {
     // (exactly representable in the 64-bit mantissa); everything else leaves the model (tag 0).
     if (m.x87 < 2) { m.bad = 1; return; }
     int64_t a = m.st[m.x87 - 2], b = m.st[m.x87 - 1]; _Bool both = m.st_int[m.x87 - 2] == 1 && m.st_int[m.x87 - 1] == 1;
-    _Bool small = a > -(1L << 31) && a < (1L << 31) && b > -(1L << 31) && b < (1L << 31);
+    _Bool small = a > -(1L << 30) && a < (1L << 30) && b > -(1L << 30) && b < (1L << 30);
     _Bool mid = a > -(1L << 61) && a < (1L << 61) && b > -(1L << 61) && b < (1L << 61);
     m.x87--;
     m.st_int[m.x87 - 1] = 0;
@@ -760,8 +760,9 @@ static inline void gm_exec(const GLine *L, const char *s, int n) {
       else if (MN("fsubrp") && mid) { m.st[m.x87 - 1] = a - b; m.st_int[m.x87 - 1] = 1; }
       else if (MN("fsubp") && mid) { m.st[m.x87 - 1] = b - a; m.st_int[m.x87 - 1] = 1; }
       else if (MN("fmulp") && small) { m.st[m.x87 - 1] = a * b; m.st_int[m.x87 - 1] = 1; }
-      else if (MN("fdivrp") && small && b != 0 && a % b == 0) { m.st[m.x87 - 1] = a / b; m.st_int[m.x87 - 1] = 1; }
-      else if (MN("fdivp") && small && a != 0 && b % a == 0) { m.st[m.x87 - 1] = b / a; m.st_int[m.x87 - 1] = 1; }
+      /* exact quotients only; 32-bit host arithmetic (the operands are below 2^31 here) keeps the divider small for the solver */
+      else if (MN("fdivrp") && small && b != 0 && (int32_t)a % (int32_t)b == 0) { m.st[m.x87 - 1] = (int32_t)a / (int32_t)b; m.st_int[m.x87 - 1] = 1; }
+      else if (MN("fdivp") && small && a != 0 && (int32_t)b % (int32_t)a == 0) { m.st[m.x87 - 1] = (int32_t)b / (int32_t)a; m.st_int[m.x87 - 1] = 1; }
     }
     return;
   }
